@@ -820,7 +820,9 @@ class _NP:
 
     def power(self, x, y):
         from .core import power as _pw
+        from .arr import _power_in_range
 
+        _power_in_range(x, y)
         return _ew2("power", _pw, x, y)
 
     def divide(self, x, y, out=None):
